@@ -34,6 +34,15 @@ def c17(ctx):
     rep.rule("C17.R3", "never for non-constants: in both folders every method for a node that reads state (pronoun, the three identifier kinds, "
              "array subscript, array pop, function call) returns Err on all paths - either overridden so, or an inherited default whose "
              "first folded element is such a method")
+    rep.rule("C17.R4", "the interpreter's side of unary minus: ProduceVal::visit_unary_expression yields negate(operand) (outcome table shared with "
+             "C03.R1) and Val::negate on a number is the f64 negation -(x) (term anchor): `0 - x` differs from it on zero")
+    from .c03 import unary_rule
+    unary_rule(ctx, "C17.R4")
+    ng = kind_rules.tables(ctx).fn("negate")
+    if ng is not None:
+        got = {kt.term(o.ret) for o in kind_rules.tables(ctx).I.run(ng, [kt.mk("Number", "self")])}
+        ok = got == {"Ok(N(neg(self.0)))"}
+        rep.ob("C17.R4", "term::negate::N", ok, "" if ok else "negate(Number) computes %s" % sorted(got), ng.loc(), how="Ok(N(neg(self.0)))")
     vb = find_method(F, VE, "visit_binary_expression", NCF)
     if vb is None:
         rep.fail("C17.R1", "anchor", "NumericConstantFolder::visit_binary_expression not found")
